@@ -3,6 +3,7 @@
 import Driver.C02
 import RelicVerif.Model.NtSmb
 import RelicVerif.Model.NtSmbPrime
+import RelicVerif.Model.NtSmbPrime2
 
 namespace Driver.C09Smb
 open Driver Relic.Model
@@ -72,9 +73,12 @@ def handle (w cap digs : Nat) (op : String) (args : List String) (got : String) 
           (if a < 0 then ["smb:jac:a-negative"] else []) ++
           (if a ≥ b then ["smb:jac:a>=b"] else [])
         some { model := toString r, spec := [spec], tags := tags }
-  | "nt_prime", "rabin" :: a :: rest => do
+  | "nt_prime", v :: a :: rest => do
     let a ← pI w a
     if tooLong then none else
+    if v != "rabin" && v != "basic" && v != "prime" && v != "solov" then none else
+    -- bn_is_prime_solov is documented for a > 2; 1 and 2 loop forever, even inputs are refused by the Jacobi symbol: left to the old case
+    if v == "solov" && (a ≤ 2 || a % 2 == 0) then none else
     -- ground truth exactly as in Driver.C09.handleC
     let truth : Option Bool :=
       if a < 2 then some false
@@ -87,14 +91,33 @@ def handle (w cap digs : Nat) (op : String) (args : List String) (got : String) 
         | _ => none
     match truth with
     | some t =>
-      let m := NtSmbPrime.rabin a
       let n := a.toNat
-      let tags :=
-        if a < 2 then ["prime:rabin:below-2"] else if a = 2 then ["prime:rabin:two"] else if a % 2 = 0 then ["prime:rabin:even"]
-        else [ "prime:rabin:tests-" ++ toString (NtSmbPrime.tests (NtSmbPrime.bitLen n)),
-               "prime:rabin:" ++ (if NtSmbPrime.basesUsed n < NtSmbPrime.tests (NtSmbPrime.bitLen n) then "base>=n-1-early-accept" else "all-bases-run"),
-               "prime:rabin:" ++ (if t then "prime" else "composite") ++ (if m then "-accepted" else "-rejected") ]
-      some { model := if m then "1" else "0", spec := [if t then "1" else "0"], tags := tags }
+      let b2s := fun (b : Bool) => if b then "1" else "0"
+      let verdictTag := fun (m : Bool) => (if t then "prime" else "composite") ++ (if m then "-accepted" else "-rejected")
+      if v == "rabin" then
+        let m := NtSmbPrime.rabin a
+        let tags :=
+          if a < 2 then ["prime:rabin:below-2"] else if a = 2 then ["prime:rabin:two"] else if a % 2 = 0 then ["prime:rabin:even"]
+          else [ "prime:rabin:tests-" ++ toString (NtSmbPrime.tests (NtSmbPrime.bitLen n)),
+                 "prime:rabin:" ++ (if NtSmbPrime.basesUsed n < NtSmbPrime.tests (NtSmbPrime.bitLen n) then "base>=n-1-early-accept" else "all-bases-run"),
+                 "prime:rabin:" ++ verdictTag m ]
+        some { model := b2s m, spec := [b2s t], tags := tags }
+      else if v == "basic" then
+        -- documented as trial division: primes are accepted; a composite may pass, a rejection must be right
+        let m := NtSmbPrime.basic w a
+        let tags := [ "prime:basic:" ++ (if a = 1 then "one" else if a < 0 then "negative" else if a = 0 then "zero"
+                        else if NtSmbPrime.primesAll.take (NtSmbPrime.basicTests w) |>.contains n then "table-prime" else verdictTag m) ]
+        some { model := b2s m, spec := if t then ["1"] else ["0", "1"], tags := tags }
+      else if v == "prime" then
+        let m := NtSmbPrime.isPrime w a
+        let tags := [ "prime:prime:" ++ (if !NtSmbPrime.basic w a then "rejected-by-trial-division" else if !NtSmbPrime.rabin a then "rejected-by-rabin" else "accepted"),
+                      "prime:prime:" ++ verdictTag m ]
+        some { model := b2s m, spec := [b2s t], tags := tags }
+      else
+        -- solov, odd a > 2: the bases come from the random generator; the model (Model/NtSmbPrime2.solov) is base-independent exactly
+        -- for primes (prime_solov_complete): prediction "1" there, otherwise only the specification judges
+        some { model := if t then "1" else got, spec := [b2s t],
+               tags := ["prime:solov:" ++ (if t then "prime-predicted-by-theorem" else "composite-spec-only")] }
     | none => none
   | _, _ => none
 
